@@ -142,6 +142,10 @@ fixed("C09-default-namespace-undeclared", "C09", "0dfa50f",
       "xmlns=\"\" left a namespace node with empty prefix and empty URI on the element and its descendants",
       witness="known/C09-default-namespace-undeclared.json")
 
+fixed("C03-self-axis-caller-order", "C03", "925e4ec",
+      "the self axis ('self::x', '.') returned a caller-ordered variable node-set unchanged: $v/self::node() was not in document order",
+      expect("<r><a/><b/><c/></r>", "$v/self::node()", {"t": "nodes", "nodes": ["/0/0", "/0/1", "/0/2"], "asc": True},
+             vars=[{"n": "v", "t": "nodes", "nodes": ["/0/2", "/0/0", "/0/1"]}]))
 fixed("C19-unmarshal-target-panics", "C19", "bbc43b3",
       "Unmarshal panicked on nil, nil-pointer, pointer-to-nil-pointer and non-pointer struct targets",
       witness="known/C19-unmarshal-target-panics.json")
